@@ -62,6 +62,7 @@ type coreOpts struct {
 	noInit        bool // storage already initialised (restart)
 	keys          [][]byte
 	ha            bool // single node with an in-memory HA lock: unseal goes to standby, then acquires leadership
+	retryBase     time.Duration // base of the revocation retry back-off (0 = the default of 10s)
 }
 
 // errCoreWedged: a core did not finish its shutdown within the harness' patience (a liveness problem outside the
@@ -119,6 +120,7 @@ func newCoreConfig(ct *caseT, o *coreOpts) *CoreConfig {
 		conf.Seal = NewTestSeal(ct, &seal.TestSealOpts{Logger: log.NewNullLogger()})
 	}
 	conf.NumExpirationWorkers = numExpirationWorkersTest
+	conf.ExpirationRevokeRetryBase = o.retryBase
 	if o.ha {
 		hab, err := inmem.NewInmemHA(nil, log.NewNullLogger())
 		if err != nil {
